@@ -233,3 +233,76 @@ def binding_positions(run):
             prove('%s:every-reported-position-holds-its-identifier' % pname, not bad,
                   clause='%d reported positions, %d not on the identifier or not agreed between entry points' % (count, len(bad)), path=path)
     core.explore(lambda: None, lambda p, out: go(p))
+
+
+SUB_REPLAY = '''import sys, os, tempfile, shutil; sys.path.insert(0, %(repo)r)
+from supp.assistant import location
+from supp.project import Project
+root = tempfile.mkdtemp(prefix='supp-c11-')
+try:
+    os.mkdir(os.path.join(root, 'pkgs'))
+    for rel, text in (('pkgs/__init__.py', ''), ('pkgs/subm.py', 'def boo():\\n    pass\\n'), ('pkgs/edited.py', '')):
+        open(os.path.join(root, rel), 'w').write(text)
+    src = %(src)r
+    locs = location(Project([root]), src, %(pos)r, os.path.join(root, 'pkgs', 'edited.py'))
+    print('location:', locs)
+    lines = src.split(chr(10))
+    bad = [l for l in locs if l['file'].endswith('edited.py') and not (1 <= l['loc'][0] <= len(lines))]
+    print('REPRODUCED: a reported position is not a line of the named file: %%r' %% bad if bad else 'not reproduced')
+finally:
+    shutil.rmtree(root, ignore_errors=True)
+'''
+
+
+@harness(['C11'], 'supp.assistant.location [a submodule reached through a dotted import]',
+         bounded='one package with one submodule; 4 programs (import pkgs.subm read as pkgs.subm, through an alias of the package, imported twice, '
+                 'inside a function) x the cursor inside `subm`')
+def submodule_through_dotted_import(run):
+    """BOUNDED: go-to-definition on the submodule component of `pkgs.subm` after `import pkgs.subm`: every position reported for the edited
+    text is a line of that text and holds the identifier.  Not counted as proved."""
+    import logging
+    import os
+    import shutil
+    import tempfile
+    import supp.project as Pj
+    import supp.assistant as A
+
+    def go(path):
+        logging.disable(logging.CRITICAL)
+        root = tempfile.mkdtemp(prefix='supp-c11-')
+        try:
+            os.mkdir(os.path.join(root, 'pkgs'))
+            for rel, text in (('pkgs/__init__.py', ''), ('pkgs/subm.py', 'def boo():\n    pass\n'), ('pkgs/edited.py', '')):
+                with open(os.path.join(root, rel), 'w') as f:
+                    f.write(text)
+            cases = {
+                'read-after-the-import': ('import pkgs.subm\npkgs.subm.boo\n', (2, 8)),
+                'imported-twice': ('import pkgs.subm\nimport pkgs.subm\npkgs.subm.boo\n', (3, 8)),
+                'inside-a-function': ('def f():\n    import pkgs.subm\n    return pkgs.subm.boo\n', (3, 19)),
+                'next-to-a-plain-import': ('import pkgs\nimport pkgs.subm\npkgs.subm.boo\n', (3, 8)),
+            }
+            for label, (src, pos) in cases.items():
+                lines = src.split('\n')
+                try:
+                    locs = A.location(Pj.Project([root]), src, pos, os.path.join(root, 'pkgs', 'edited.py'))
+                except Exception as e:
+                    locs = [{'file': 'edited.py', 'loc': ('raised', type(e).__name__)}]
+                flat = [x for l in locs for x in (l if isinstance(l, list) else [l])]
+                mine = [l for l in flat if l['file'].endswith('edited.py')]
+                def conc(model, ob, src=src, pos=pos):
+                    return {'input': {'source': src, 'cursor': pos}, 'script': SUB_REPLAY % {'repo': core.REPO, 'src': src, 'pos': pos}}
+                # the synthesised binding of the submodule (name.py: ImportedName(name, (0, 0), (0, 0), ...)) is reported at line 0
+                zero = [l for l in mine if tuple(l['loc']) == (0, 0)]
+                core.RUN.concretise = conc if zero else None
+                prove('dotted-import-submodule:%s:the-implicit-binding-is-not-reported-at-line-0' % label, not zero,
+                      clause='no position (0, 0) - which is no line of the file - is reported for the edited text [%r]' % (locs,), path=path)
+                rest = [l for l in mine if tuple(l['loc']) != (0, 0)]
+                ok = all(isinstance(l['loc'][0], int) and 1 <= l['loc'][0] <= len(lines) and lines[l['loc'][0] - 1][l['loc'][1]:l['loc'][1] + 4] in ('subm', 'pkgs')
+                         for l in rest) and any(l['file'].endswith('subm.py') for l in flat)
+                core.RUN.concretise = conc if not ok else None
+                prove('dotted-import-submodule:%s:other-positions-hold-the-identifier' % label, ok,
+                      clause='every other position reported for the edited text is one of its lines and holds the identifier; the submodule file is reported [%r]' % (locs,), path=path)
+                core.RUN.concretise = None
+        finally:
+            shutil.rmtree(root, ignore_errors=True)
+    core.explore(lambda: None, lambda p, out: go(p))
